@@ -73,3 +73,17 @@ contract(M + ":Time.from_float", "C14", tag="F", model="F", params={"time": "flo
          canary="result._remainder == 0",
          trusted=["cpython_float_divmod: float_divmod(x, 1.0) encoded from Objects/floatobject.c with fmod(x,1.0) = x - trunc(x) (exact)"],
          note="conversion from a non-negative float is exact")
+
+# ---- comparisons including +infinity, bit precise (model F): they agree with the lexicographic (quotient, remainder)
+# order, which for normalised times is the exact order of quotient + remainder; infinity is the largest and equals itself
+spec("ok_f(t)", "(is_int(t._quotient) and 0 <= t._quotient <= 2**52 and 0 <= t._remainder < 1) or "
+                "(isinf(t._quotient) and t._quotient > 0 and isinf(t._remainder) and t._remainder > 0)")
+spec("lex_eq(a, b)", "a._quotient == b._quotient and a._remainder == b._remainder")
+for name, rhs in (("__lt__", "lex_lt(self, other)"), ("__le__", "lex_lt(self, other) or lex_eq(self, other)"),
+                  ("__gt__", "lex_lt(other, self)"), ("__ge__", "lex_lt(other, self) or lex_eq(self, other)"),
+                  ("__eq__", "lex_eq(self, other)")):
+    contract(M + ":Time." + name, "C14", tag="Finf", model="F", params={"other": "Time"}, returns="bool",
+             inline=["__lt__", "__eq__", "__sub__", "__gt__", "__le__", "__ge__", "__ne__"],
+             requires=["ok_f(self)", "ok_f(other)"],
+             ensures=["result == (%s)" % rhs],
+             canary="result", note="includes infinite operands: inf == inf, inf >= inf, finite < inf")
